@@ -64,11 +64,11 @@ var cdxSerialRe = regexp.MustCompile(`^urn:uuid:[0-9a-f]{8}-[0-9a-f]{4}-[1-5][0-
 // the hash-content pattern of the CycloneDX 1.3-1.5 JSON schemas
 var cdxHashContentRe = regexp.MustCompile(`^([a-fA-F0-9]{32}|[a-fA-F0-9]{40}|[a-fA-F0-9]{64}|[a-fA-F0-9]{96}|[a-fA-F0-9]{128})$`)
 
-// hashValue draws mostly schema-valid hash contents, sometimes arbitrary text (which only has to be survived).
+// hashValue draws schema-valid hash contents.
 func hashValue(t *rapid.T, label string, other *rapid.Generator[string]) string {
-	if rapid.IntRange(0, 4).Draw(t, label+".junk") == 0 {
-		return other.Draw(t, label)
-	}
+	// (contents outside the schema pattern are exercised by the totality checks C04 / C07: a document carrying one may be
+	// refused by a validating reader, so round-trip and translation generators stay inside the pattern)
+	_ = other
 	n := rapid.SampledFrom([]int{32, 40, 64, 96, 128}).Draw(t, label+".len")
 	return rapid.StringOfN(rapid.RuneFrom([]rune("0123456789abcdefABCDEF")), n, n, -1).Draw(t, label+".hex")
 }
